@@ -35,7 +35,7 @@ ParentKind == [fid |-> "", aid |-> "fid", vg |-> "fid", vs |-> "fid", gr |-> "fi
                ann |-> "fid", sd |-> "", sds |-> "sd"]
 Kinds == DOMAIN ParentKind
 \* objects a handle of each kind can be acquired for (per file)
-ObjsOf == [fid |-> {"r", "w"}, aid |-> {"e1", "e2"}, vg |-> {"vg1", "vg2"}, vs |-> {"vd1", "vd2"}, gr |-> {"gr"},
+ObjsOf == [fid |-> {"r", "w"}, aid |-> {"e1", "e2", "e3", "e4"}, vg |-> {"vg1", "vg2"}, vs |-> {"vd1", "vd2"}, gr |-> {"gr"},
            ri |-> {"im1", "im2"}, ann |-> {"lab1"}, sd |-> {"sd"}, sds |-> {"s1", "s2"}]
 
 VARIABLES hs,      \* symbolic handle name -> [kind, num, file, obj, parent, live]
